@@ -171,6 +171,34 @@ func init() {
 		},
 		// vxHandoff: the current thread lets every other runnable thread run until it
 		// blocks or finishes (deterministic, independent of the scheduling mode)
+		"vxFireTimers": func(fr *frame, a []value) value {
+			i := fr.i
+			if i.sch.evalDepth > 0 {
+				return nil
+			}
+			for _, t := range i.world.timers {
+				if t.stopped || t.fired {
+					continue
+				}
+				t.fired = true
+				fn := t.fn
+				i.spawn("timer", func() {
+					call(i, nil, token.NoPos, fn, nil)
+				})
+				i.event("timer fired")
+			}
+			// the timer functions run before the caller goes on (time has passed)
+			t := i.sch.cur
+			for _, x := range i.sch.threads {
+				if x != t && x.enabled() {
+					t.state = thRunnable
+					i.handoff(x)
+					i.park(t)
+					break
+				}
+			}
+			return nil
+		},
 		"vxHandoff": func(fr *frame, a []value) value {
 			i := fr.i
 			if i.sch.evalDepth > 0 {
